@@ -10,6 +10,7 @@ import (
 	"fmt"
 
 	"github.com/enfein/mieru/v3/apis/trafficpattern"
+	"github.com/enfein/mieru/v3/pkg/appctl"
 	"github.com/enfein/mieru/v3/pkg/appctl/appctlpb"
 	mcipher "github.com/enfein/mieru/v3/pkg/cipher"
 	"google.golang.org/protobuf/encoding/prototext"
@@ -23,7 +24,7 @@ func init() {
 	reg.Register(runner.Check{
 		ID:    "C16",
 		Level: "exploration",
-		Rule: "Part A: all 8192 subsets of the 13 optional TrafficPattern fields (values rotated through each field's boundary list) and all pairs of fields x all boundary-value combinations, each x 5 seeds x unlockAll {false,true}; oracle: Validate(Effective()) passes, explicit fields unchanged, two constructions equal, Decode(Encode(p)) equals p, the real cipher produces nonces obeying the effective nonce pattern. " +
+		Rule: "Part A: all 8192 subsets of the 13 optional TrafficPattern fields (values rotated through each field's boundary list) and all pairs of fields x all boundary-value combinations, each x 5 seeds x unlockAll {false,true}; oracle: Validate(Effective()) passes, explicit fields unchanged, two constructions equal, Decode(Encode(p)) equals p, the pattern (original and effective) survives the mierus:// profile link and the mieru:// configuration link, the real cipher produces nonces obeying the effective nonce pattern. " +
 			"Part B: wire monitors on executions of the real stack (padding maxima, nonce prefixes, TCP fragmentation, low-entropy mode/rotation, server low entropy only after the client's). distinct = distinct TrafficPattern messages",
 		Assumptions: []string{
 			"field values are drawn from boundary lists (0, 1, max, min=max, max<implicit min, 12-byte prefixes, several prefixes), not from the full integer ranges",
@@ -156,6 +157,11 @@ func show(t *appctlpb.TrafficPattern) string {
 	return prototext.MarshalOptions{Multiline: false}.Format(t)
 }
 
+// samePattern: an absent pattern and a pattern with no field set are the same configuration.
+func samePattern(a, b *appctlpb.TrafficPattern) bool {
+	return proto.Equal(a, b) || (proto.Size(a) == 0 && proto.Size(b) == 0)
+}
+
 // judge checks one original pattern; it returns false to stop the unit.
 func judge(u *runner.U, orig *appctlpb.TrafficPattern) bool {
 	u.Eval(1)
@@ -200,6 +206,33 @@ func judge(u *runner.U, orig *appctlpb.TrafficPattern) bool {
 		dec, err := trafficpattern.Decode(trafficpattern.Encode(p))
 		if err != nil || !proto.Equal(dec, p) {
 			return fail("encoding-lossy", fmt.Sprintf("Decode(Encode(p)) != p for %s (err=%v)", show(p), err))
+		}
+	}
+	// sharing: the pattern survives the mierus:// link of a profile and the mieru:// link of a configuration
+	for _, p := range []*appctlpb.TrafficPattern{keep, eff} {
+		prof := &appctlpb.ClientProfile{
+			ProfileName: proto.String("default"),
+			User:        &appctlpb.User{Name: proto.String("alice"), Password: proto.String("secret-pw")},
+			Servers: []*appctlpb.ServerEndpoint{{IpAddress: proto.String("1.2.3.4"),
+				PortBindings: []*appctlpb.PortBinding{{Port: proto.Int32(8964), Protocol: appctlpb.TransportProtocol_TCP.Enum()}}}},
+			TrafficPattern: proto.Clone(p).(*appctlpb.TrafficPattern),
+		}
+		urls, err := appctl.ClientProfileToMultiURLs(prof)
+		if err != nil || len(urls) != 1 {
+			return fail("share-link-export", fmt.Sprintf("ClientProfileToMultiURLs failed for a valid pattern: %v", err))
+		}
+		back, err := appctl.URLToClientProfile(urls[0])
+		if err != nil || !samePattern(back.GetTrafficPattern(), p) {
+			return fail("share-link-lossy", fmt.Sprintf("the pattern does not survive the share link %s: got %s (err=%v)", urls[0], show(back.GetTrafficPattern()), err))
+		}
+		cc := &appctlpb.ClientConfig{Profiles: []*appctlpb.ClientProfile{prof}, ActiveProfile: proto.String("default")}
+		l, err := appctl.ClientConfigToURL(cc)
+		if err != nil {
+			return fail("share-link-export", fmt.Sprintf("ClientConfigToURL failed for a valid pattern: %v", err))
+		}
+		cb, err := appctl.URLToClientConfig(l)
+		if err != nil || len(cb.GetProfiles()) != 1 || !samePattern(cb.GetProfiles()[0].GetTrafficPattern(), p) {
+			return fail("share-link-lossy", fmt.Sprintf("the pattern does not survive the mieru:// link (err=%v)", err))
 		}
 	}
 	// the real cipher runs with the effective nonce pattern and obeys it
